@@ -528,6 +528,93 @@ def E_readonly_memory(rng, tier):
         shutil.rmtree(d, ignore_errors=True)
 
 
+def E_sizes(rng, tier):
+    """dense sweeps of every size-like dimension (each length from 0 or 1 up to a few
+    hundred, plus the neighbours of powers of two and of round numbers beyond), with
+    ordinary finite values: fixed-size work areas, block sizes and thresholds inside a
+    kernel show at one particular length only"""
+    from hyverif.core import size_edges
+    from hydrodiy.stat import metrics, sutils, armodels
+    from hydrodiy.data import dutils, qualitycontrol as qc
+    from hydrodiy.gis import gutils
+    import pandas as pd
+    r = np.random.default_rng(11)
+    big = size_edges(301, 70001 if tier == "thorough" else 20001)
+
+    def chunks(seq, k):
+        seq = list(seq)
+        return [seq[i:i + k] for i in range(0, len(seq), k)]
+
+    for ch in chunks(range(1, 301), 50):
+        def crps_m(ch=ch):
+            for m in ch:
+                e = r.normal(size=(3, m))
+                metrics.crps(r.normal(size=3), e)
+                metrics.pit(r.normal(size=3), e)
+        yield f"crps-pit|members={ch[0]}..{ch[-1]}", crps_m
+
+        def dscore_m(ch=ch):
+            for m in ch:
+                metrics.dscore(r.normal(size=3), r.normal(size=(3, m)))
+        yield f"dscore|members={ch[0]}..{ch[-1]}", dscore_m
+
+        def crps_n(ch=ch):
+            for n in ch:
+                metrics.crps(r.normal(size=n), r.normal(size=(n, 2)))
+                metrics.alpha(r.normal(size=n), r.normal(size=(n, 3)), type="CV")
+        yield f"crps-alpha|forecasts={ch[0]}..{ch[-1]}", crps_n
+
+        def one_d(ch=ch):
+            for n in ch:
+                x = np.abs(r.normal(size=n)) + 0.1
+                idx = np.sort(r.integers(0, max(1, n // 3) + 1, size=n)).astype(np.int32)
+                for op in range(4):
+                    dutils.aggregate(idx, x, operator=op)
+                dutils.flathomogen(idx, x, 1)
+                metrics.anderson_darling_test(r.random(n))
+                metrics.cramer_von_mises_test(r.random(n))
+                qc.islinear(x)
+                sutils.standard_normal(x)
+                for order in (1, 2, 10):
+                    armodels.armodel_sim(np.full(order, 0.05), x)
+                    armodels.armodel_residual(np.full(order, 0.05), x)
+                sutils.pareto_front(r.normal(size=(min(n, 120), 3)))
+                gutils.points_inside_polygon(r.normal(size=(n, 2)),
+                                             r.normal(size=(max(3, n % 97), 2)))
+        yield f"one-dimensional|length={ch[0]}..{ch[-1]}", one_d
+    for ch in chunks(big, 6):
+        def one_d_big(ch=ch):
+            for n in ch:
+                x = np.abs(r.normal(size=n)) + 0.1
+                idx = (np.arange(n) // 7).astype(np.int32)
+                dutils.aggregate(idx, x, operator=0)
+                dutils.flathomogen(idx, x, 0)
+                metrics.anderson_darling_test(r.random(n))
+                metrics.cramer_von_mises_test(r.random(n))
+                armodels.armodel_sim(np.array([0.3, 0.1]), x)
+                armodels.armodel_residual(np.array([0.3, 0.1]), x)
+                gutils.points_inside_polygon(r.normal(size=(n, 2)), r.normal(size=(5, 2)))
+                metrics.pit(r.normal(size=n), r.normal(size=(n, 3)))
+                if n <= 20001:
+                    metrics.crps(r.normal(size=n), r.normal(size=(n, 2)))
+        yield f"one-dimensional|length={ch[0]}..{ch[-1]}", one_d_big
+    # very wide ensembles / very long vectors: work areas taken from the stack
+    for m in (100000, 300000, 1000000):
+        def wide(m=m):
+            metrics.dscore(np.array([0.1, 0.7]), r.normal(size=(2, m)))
+            metrics.crps(np.array([0.1, 0.7]), r.normal(size=(2, m)))
+            metrics.pit(np.array([0.1, 0.7]), r.normal(size=(2, m)))
+        yield f"wide-ensemble|members={m}", wide
+    def long_vectors():
+        n = 1000000
+        x = np.abs(r.normal(size=n)) + 0.1
+        dutils.aggregate((np.arange(n) // 30).astype(np.int32), x)
+        metrics.anderson_darling_test(r.random(n))
+        armodels.armodel_sim(np.array([0.3]), x)
+        qc.islinear(x)
+    yield "long-vectors|n=1000000", long_vectors
+
+
 def E_pip(rng, tier):
     from hydrodiy.gis import gutils
     polys = [np.zeros((0, 2)), np.array([[0.5, 0.5]]), np.array([[0., 0.], [3., 3.]]),
@@ -751,7 +838,7 @@ ENTRIES = {
     "catchment-from_dict": E_catchment_fromdict, "accumulate-slope": E_accumulate,
     "delineate_river": E_river, "voronoi-intersect": E_voronoi_intersect,
     "intersect-alignments": E_intersect_alignments, "grid-edges": E_gridedges,
-    "readonly-memory": E_readonly_memory,
+    "readonly-memory": E_readonly_memory, "size-sweeps": E_sizes,
 }
 
 
